@@ -23,7 +23,7 @@ BOUNDS = {
     "thorough": dict(integers="as quick", bytesinteger_lengths=[1, 2, 3, 4, 5, 7, 8, 9, 16], varint="values < 2**63; parse of any 0..10 bytes",
                      parse_buffers="leaves size-1..size+1, composites 0..8", composites="curated + seeded sample of generated depth<=2 specs"),
 }
-OUTSIDE = ["strings (codec models are stage 2)", "floats: checked in c03 float instances against the z3 IEEE model of struct; NaN payloads excluded",
+OUTSIDE = ["strings longer than 2 code points and codecs other than ascii / utf-8 / utf-16-le / utf-32-be (the codecs themselves are modelled, not re-derived)", "floats: checked in c03 float instances against the z3 IEEE model of struct; NaN payloads excluded",
            "depth > 2 composites", "Pointer/Peek/RawCopy/Tell (C08, C09, C14 have their own oracles)"]
 ASSUMPTIONS = ["reference semantics checks/ref.py (written from the documentation) is the oracle",
                "public-name table (size, signedness, byte order) is derived from the naming convention, not from core.py"]
@@ -94,6 +94,10 @@ def _composites(tier):
         ("bitwise", ("seq", [("bitsint", 8, False, False), ("bitsint", 4, False, False), ("bitsint", 4, True, False)])),
         ("struct", [["h", ("bitwise", ("struct", [["x", ("bitsint", 4, False, False)], ["y", ("bitsint", 4, False, False)]]))], ["t", I16l]]),
     ]
+    for e in ("ascii", "utf8", "utf_16_le", "utf_32_be"):
+        out += [("pstring", 4, e, 1), ("cstring", e, 1), ("pascal", I8, e, 1), ("greedystring", e, 1)]
+    out += [("pstring", 3, "utf8", 2), ("cstring", "utf8", 2), ("pascal", V, "utf8", 2), ("pstring", 6, "utf_16_le", 2), ("pascal", ("fmt", "Int16ul"), "utf_16_le", 1),
+            ("struct", [["name", ("cstring", "utf8", 1)], ["t", I8]]), ("struct", [["s", ("pstring", 2, "ascii", 2)], ["t", I8]])]
     return out
 
 
@@ -114,6 +118,9 @@ def instances(tier, seed):
     specs = _leaf_specs(tier) + _composites(tier)
     for s in specs:
         name = src(s)
+        shape = [x[-1] for x in __import__("checks.common", fromlist=["walk"]).walk(s) if x[0] in ("pstring", "cstring", "pascal", "greedystring")]
+        if shape:
+            name += "  [text of %s code points]" % "/".join(str(n) for n in shape)
         exp_b = ["accept"]
         out.append(dict(name="build  " + name, params=dict(op="build", spec=J(s), tier=tier), expect=exp_b))
         for n in _parse_lengths(s, tier):
